@@ -83,6 +83,9 @@ def run(ctx):
         except KeyError:
             data = None
             vimpl.append('err:other')
+        except Exception as e:
+            data = None
+            vimpl.append('raised:%s' % type(e).__name__)
         vlines.append('posv.enc live %d %d %d %d' % (v, x, y, z))
         raw = data if data is not None else bytes(rng.randrange(256) for _ in range(8))
         try:
@@ -90,6 +93,8 @@ def run(ctx):
             vimpl.append('ok %d %d %d 2a' % (p_.x, p_.y, p_.z))
         except KeyError:
             vimpl.append('err:other')
+        except Exception as e:
+            vimpl.append('raised:%s' % type(e).__name__)
         vlines.append('posv.dec live %d %s' % (v, (raw + b'\x2a').hex()))
         rx, ry, rz, bid = rng.randrange(16), rng.randrange(16), rng.randrange(16), rng.choice([0, 1, 300, 2 ** 20, 2 ** 32 + 5])
         buf = PacketBuffer()
